@@ -62,7 +62,7 @@ def generate(repo):
         o = body.find('dashmap::Entry::Occupied', e if e >= 0 else 0)
         v = body.find('dashmap::Entry::Vacant', e if e >= 0 else 0)
         c = _pos(body[o:v] if 0 <= o < v else '',
-                 r'!\s*self\s*\.\s*config\s*\.\s*allow_duplicates\s*&&\s*!\s*posting\s*\.\s*2\s*\.\s*contains\(\s*&doc_id\s*\)',
+                 r'if\s+!\s*self\s*\.\s*config\s*\.\s*allow_duplicates(?:\s*&&\s*![^&{]+?)*?\s*&&\s*!\s*posting\s*\.\s*2\s*\.\s*contains\(\s*&doc_id\s*\)',
                  item + '.check')
         err = 'AlreadyExists' in (body[o:v] if 0 <= o < v else '')
         return e >= 0 and 0 <= o < v and c >= 0 and err
@@ -107,9 +107,17 @@ def generate(repo):
 
     # --- update_impl
     up = fn_body(coll, 'update_impl', G, kind=r'async\s+fn')
-    u1 = _pos(up, r'index\s*\.\s*update\(\s*id\s*,\s*&old_value\s*,\s*&new_value\s*,\s*now_ms\s*\)\s*\?', 'update_impl.index.update?')
+    FWD = r'index\s*\.\s*update\(\s*id\s*,\s*&old_value\s*,\s*&new_value\s*,\s*now_ms\s*\)'
+    REV = r'index\s*\.\s*update\(\s*id\s*,\s*&new_value\s*,\s*&old_value\s*,\s*now_ms\s*\)'
+    u1 = _pos(up, FWD, 'update_impl.index.update')
     u2 = _pos(up, r'btree_updated\s*\.\s*insert\(\s*index\s*,', 'update_impl.record')
     out.append('Definition update_records_after_update : bool := %s.\n' % _b(0 <= u1 < u2))
+    # the failing index is restored in place: if let Err(err) = index.update(old,new) { let _ = index.update(new,old); return Err(err) }
+    comp = re.search(r'if\s+let\s+Err\(err\)\s*=\s*' + FWD + r'\s*\{\s*let\s+_\s*=\s*' + REV + r'\s*;\s*return\s+Err\(err\)\s*;\s*\}', up)
+    prop = re.search(FWD + r'\s*\?\s*;', up)
+    if not comp and not prop:
+        lost(G, 'update_impl.index.update error path')
+    out.append('Definition update_compensates_failed_index : bool := %s.\n' % _b(comp and 0 <= u1 < u2))
     rbu = re.search(r'let\s+rollback_indexes\s*=\s*\|\|\s*\{(.*?)\n        \};', up, re.S)
     rbu_ok = bool(rbu and re.search(r'for\s*\(\s*k\s*,\s*v\s*\)\s*in\s+btree_updated\s*\{\s*if\s+let\s+Err\(err\)\s*=\s*k\s*\.\s*update\(\s*id\s*,\s*&v\s*\.\s*1\s*,\s*&v\s*\.\s*0\s*,', rbu.group(1))
                   and re.search(r'restored\s*=\s*false', rbu.group(1)))
